@@ -335,40 +335,10 @@ impl TextSelection {
     /// Converts a relative offset, expressed in the coordinates of this text selection, to an absolute one
     /// expressed in the coordinates of the resource.
     pub fn absolute_offset(&self, offset: &Offset) -> Result<Offset, StamError> {
-        let textlen = self.end() - self.begin();
-        let begin = Cursor::BeginAligned(
-            self.begin()
-                + match offset.begin {
-                    Cursor::BeginAligned(x) => x,
-                    Cursor::EndAligned(x) => {
-                        if x > 0 || textlen < x.unsigned_abs() {
-                            return Err(StamError::CursorOutOfBounds(
-                                offset.begin,
-                                "(textselection_by_offset)",
-                            ));
-                        } else {
-                            textlen - x.unsigned_abs()
-                        }
-                    }
-                },
-        );
-        let end = Cursor::BeginAligned(
-            self.begin()
-                + match offset.end {
-                    Cursor::BeginAligned(x) => x,
-                    Cursor::EndAligned(x) => {
-                        if x > 0 || textlen < x.unsigned_abs() {
-                            return Err(StamError::CursorOutOfBounds(
-                                offset.end,
-                                "(textselection_by_offset)",
-                            ));
-                        } else {
-                            textlen - x.unsigned_abs()
-                        }
-                    }
-                },
-        );
-        Ok(Offset::new(begin, end))
+        //resolve the relative offset against this text selection, this refuses cursors that
+        //fall outside of it and inverted ranges, the result has absolute coordinates
+        let textselection = self.textselection_by_offset(offset)?;
+        Ok(Offset::simple(textselection.begin(), textselection.end()))
     }
 
     /// Resolves a relative cursor to a relative begin aligned cursor, resolving all end-aligned positions
